@@ -215,7 +215,7 @@ def run(ctx):
     bc = _group(bchunks + cchunks, 4 if q else 8, os.path.join(ctx.work, "chunks"), "bc")
     _validate(ctx, chunks + bc, 4 if q else 8)
     _lap("trace validation")
-    if ctx.extra.get("round_trips", 0) < 20 or ctx.extra.get("header_outcomes_accepted", 0) < 100:
+    if not ctx.violations and (ctx.extra.get("round_trips", 0) < 20 or ctx.extra.get("header_outcomes_accepted", 0) < 100):
         raise lib.ModelFailure("too few round trips / accepted headers recorded: the recording is not exercising the code")
     ctx.exhaustive = False
     ctx.extra["line_alphabet"] = 51
